@@ -28,12 +28,18 @@ Engine/RecEngine.vos Engine/RecEngine.vok Engine/RecEngine.required_vos: Engine/
 Engine/RecEval.vo Engine/RecEval.glob Engine/RecEval.v.beautified Engine/RecEval.required_vo: Engine/RecEval.v Engine/RecInv.vo
 Engine/RecEval.vio: Engine/RecEval.v Engine/RecInv.vio
 Engine/RecEval.vos Engine/RecEval.vok Engine/RecEval.required_vos: Engine/RecEval.v Engine/RecInv.vos
+Engine/RecFuel.vo Engine/RecFuel.glob Engine/RecFuel.v.beautified Engine/RecFuel.required_vo: Engine/RecFuel.v Engine/RecTheorems.vo
+Engine/RecFuel.vio: Engine/RecFuel.v Engine/RecTheorems.vio
+Engine/RecFuel.vos Engine/RecFuel.vok Engine/RecFuel.required_vos: Engine/RecFuel.v Engine/RecTheorems.vos
 Engine/RecInv.vo Engine/RecInv.glob Engine/RecInv.v.beautified Engine/RecInv.required_vo: Engine/RecInv.v Engine/RecEngine.vo Engine/AndOrFacts.vo
 Engine/RecInv.vio: Engine/RecInv.v Engine/RecEngine.vio Engine/AndOrFacts.vio
 Engine/RecInv.vos Engine/RecInv.vok Engine/RecInv.required_vos: Engine/RecInv.v Engine/RecEngine.vos Engine/AndOrFacts.vos
 Engine/RecSolve.vo Engine/RecSolve.glob Engine/RecSolve.v.beautified Engine/RecSolve.required_vo: Engine/RecSolve.v Engine/RecEval.vo
 Engine/RecSolve.vio: Engine/RecSolve.v Engine/RecEval.vio
 Engine/RecSolve.vos Engine/RecSolve.vok Engine/RecSolve.required_vos: Engine/RecSolve.v Engine/RecEval.vos
+Engine/RecTheorems.vo Engine/RecTheorems.glob Engine/RecTheorems.v.beautified Engine/RecTheorems.required_vo: Engine/RecTheorems.v Engine/RecSolve.vo Engine/RecWitness.vo
+Engine/RecTheorems.vio: Engine/RecTheorems.v Engine/RecSolve.vio Engine/RecWitness.vio
+Engine/RecTheorems.vos Engine/RecTheorems.vok Engine/RecTheorems.required_vos: Engine/RecTheorems.v Engine/RecSolve.vos Engine/RecWitness.vos
 Engine/RecWitness.vo Engine/RecWitness.glob Engine/RecWitness.v.beautified Engine/RecWitness.required_vo: Engine/RecWitness.v Engine/RecEngine.vo
 Engine/RecWitness.vio: Engine/RecWitness.v Engine/RecEngine.vio
 Engine/RecWitness.vos Engine/RecWitness.vok Engine/RecWitness.required_vos: Engine/RecWitness.v Engine/RecEngine.vos
@@ -139,18 +145,18 @@ Props/C07.vos Props/C07.vok Props/C07.required_vos: Props/C07.v Rules/Assoc.vos
 Props/C08.vo Props/C08.glob Props/C08.v.beautified Props/C08.required_vo: Props/C08.v Rules/Builtin.vo
 Props/C08.vio: Props/C08.v Rules/Builtin.vio
 Props/C08.vos Props/C08.vok Props/C08.required_vos: Props/C08.v Rules/Builtin.vos
-Props/C09.vo Props/C09.glob Props/C09.v.beautified Props/C09.required_vo: Props/C09.v Engine/RecEngine.vo Engine/RecWitness.vo
-Props/C09.vio: Props/C09.v Engine/RecEngine.vio Engine/RecWitness.vio
-Props/C09.vos Props/C09.vok Props/C09.required_vos: Props/C09.v Engine/RecEngine.vos Engine/RecWitness.vos
-Props/C10.vo Props/C10.glob Props/C10.v.beautified Props/C10.required_vo: Props/C10.v Engine/RecEngine.vo Engine/RecWitness.vo
-Props/C10.vio: Props/C10.v Engine/RecEngine.vio Engine/RecWitness.vio
-Props/C10.vos Props/C10.vok Props/C10.required_vos: Props/C10.v Engine/RecEngine.vos Engine/RecWitness.vos
-Props/C11.vo Props/C11.glob Props/C11.v.beautified Props/C11.required_vo: Props/C11.v Engine/RecEngine.vo Engine/RecWitness.vo
-Props/C11.vio: Props/C11.v Engine/RecEngine.vio Engine/RecWitness.vio
-Props/C11.vos Props/C11.vok Props/C11.required_vos: Props/C11.v Engine/RecEngine.vos Engine/RecWitness.vos
-Props/C12.vo Props/C12.glob Props/C12.v.beautified Props/C12.required_vo: Props/C12.v Engine/RecEngine.vo Engine/RecWitness.vo
-Props/C12.vio: Props/C12.v Engine/RecEngine.vio Engine/RecWitness.vio
-Props/C12.vos Props/C12.vok Props/C12.required_vos: Props/C12.v Engine/RecEngine.vos Engine/RecWitness.vos
+Props/C09.vo Props/C09.glob Props/C09.v.beautified Props/C09.required_vo: Props/C09.v Engine/RecFuel.vo
+Props/C09.vio: Props/C09.v Engine/RecFuel.vio
+Props/C09.vos Props/C09.vok Props/C09.required_vos: Props/C09.v Engine/RecFuel.vos
+Props/C10.vo Props/C10.glob Props/C10.v.beautified Props/C10.required_vo: Props/C10.v Engine/RecTheorems.vo
+Props/C10.vio: Props/C10.v Engine/RecTheorems.vio
+Props/C10.vos Props/C10.vok Props/C10.required_vos: Props/C10.v Engine/RecTheorems.vos
+Props/C11.vo Props/C11.glob Props/C11.v.beautified Props/C11.required_vo: Props/C11.v Engine/RecTheorems.vo
+Props/C11.vio: Props/C11.v Engine/RecTheorems.vio
+Props/C11.vos Props/C11.vok Props/C11.required_vos: Props/C11.v Engine/RecTheorems.vos
+Props/C12.vo Props/C12.glob Props/C12.v.beautified Props/C12.required_vo: Props/C12.v Engine/RecTheorems.vo
+Props/C12.vio: Props/C12.v Engine/RecTheorems.vio
+Props/C12.vos Props/C12.vok Props/C12.required_vos: Props/C12.v Engine/RecTheorems.vos
 Props/C13.vo Props/C13.glob Props/C13.v.beautified Props/C13.required_vo: Props/C13.v Logic/Perm.vo
 Props/C13.vio: Props/C13.v Logic/Perm.vio
 Props/C13.vos Props/C13.vok Props/C13.required_vos: Props/C13.v Logic/Perm.vos
@@ -178,9 +184,9 @@ Props/C20.vos Props/C20.vok Props/C20.required_vos: Props/C20.v Rules/Orphan.vos
 Props/C21.vo Props/C21.glob Props/C21.v.beautified Props/C21.required_vo: Props/C21.v Rules/Wf.vo
 Props/C21.vio: Props/C21.v Rules/Wf.vio
 Props/C21.vos Props/C21.vok Props/C21.required_vos: Props/C21.v Rules/Wf.vos
-Props/C22.vo Props/C22.glob Props/C22.v.beautified Props/C22.required_vo: Props/C22.v Text/Syntax22.vo Text/Print.vo Text/Parse.vo Text/RoundTripAst.vo Text/RoundTripIr.vo Text/RoundTrip.vo
-Props/C22.vio: Props/C22.v Text/Syntax22.vio Text/Print.vio Text/Parse.vio Text/RoundTripAst.vio Text/RoundTripIr.vio Text/RoundTrip.vio
-Props/C22.vos Props/C22.vok Props/C22.required_vos: Props/C22.v Text/Syntax22.vos Text/Print.vos Text/Parse.vos Text/RoundTripAst.vos Text/RoundTripIr.vos Text/RoundTrip.vos
+Props/C22.vo Props/C22.glob Props/C22.v.beautified Props/C22.required_vo: Props/C22.v Text/Syntax22.vo Text/Print.vo Text/Parse.vo Text/RoundTripAst.vo Text/RoundTripIr.vo Text/RoundTrip.vo Text/Fuel.vo
+Props/C22.vio: Props/C22.v Text/Syntax22.vio Text/Print.vio Text/Parse.vio Text/RoundTripAst.vio Text/RoundTripIr.vio Text/RoundTrip.vio Text/Fuel.vio
+Props/C22.vos Props/C22.vok Props/C22.required_vos: Props/C22.v Text/Syntax22.vos Text/Print.vos Text/Parse.vos Text/RoundTripAst.vos Text/RoundTripIr.vos Text/RoundTrip.vos Text/Fuel.vos
 Props/C23.vo Props/C23.glob Props/C23.v.beautified Props/C23.required_vo: Props/C23.v Logic/Restrict.vo
 Props/C23.vio: Props/C23.v Logic/Restrict.vio
 Props/C23.vos Props/C23.vok Props/C23.required_vos: Props/C23.v Logic/Restrict.vos
